@@ -134,6 +134,41 @@ def noFallibleAfterOpen : List Eff → Bool
   | .openW :: rest => rest.all (fun e => !e.fallible)
   | _ :: rest => noFallibleAfterOpen rest
 
+/-! ### the standard shape of a dump
+
+`validate`* `getParser` `validate`* `serialize` `validate`* `openW` `buildFile` – the shape both `dump` methods have
+(with `validate` calls allowed anywhere before the open).  Decidable; used to state, for every script of this shape at
+once, that a refusing validator makes the dump fail before the open and that a successful dump writes the text. -/
+inductive Phase where
+  | init | parsed | serialized | opened | done
+deriving DecidableEq, Repr
+
+def phaseStep : Phase → Eff → Option Phase
+  | .init, .validate => some .init
+  | .init, .getParser => some .parsed
+  | .parsed, .validate => some .parsed
+  | .parsed, .serialize => some .serialized
+  | .serialized, .validate => some .serialized
+  | .serialized, .openW => some .opened
+  | .opened, .buildFile => some .done
+  | _, _ => none
+
+def phases : Phase → List Eff → Option Phase
+  | p, [] => some p
+  | p, e :: rest => match phaseStep p e with
+    | some q => phases q rest
+    | none => none
+
+def standardShape (sc : List Eff) : Bool := phases .init sc == some .done
+
+/-- the interpreter state a standard script is in at each phase (all steps so far succeeded) -/
+def stateAt (fs : FS) (path : Path) (t0 t : Content) : Phase → DumpSt
+  | .init => { fs := fs }
+  | .parsed => { fs := fs, parser := some t0 }
+  | .serialized => { fs := fs, parser := some t }
+  | .opened => { fs := fs.write path [], parser := some t, opened := true }
+  | .done => { fs := fs.write path t, parser := some t, opened := true }
+
 /-! ### nested sections: where `serialize` can fail
 
 A metadata object is a tree of sections; each section writer first validates its own object (a list of field
